@@ -46,6 +46,7 @@ def run(rep, tier):
     rep.rule("R6", "an instruction reports an operand exactly when dis of that version does (op >= HAVE_ARGUMENT; hasarg from 3.12)")
     rep.rule("R7", "the xdis.std entry points the property is observed at (get_instructions, Bytecode iteration, make_std_api(v)) hand on the caller's arguments and the "
                    "API's own table: C20's plumbing rules R1, R2 and R7 (first_line, per-API opcode table, show_caches), restated")
+    rep.rule("R8", "the opcode table used for a version and flavour (CPython / PyPy) is that version's and flavour's, also after the other flavour was requested (C09-R5, restated)")
     collect(rep, "C02", _work)
     driver(rep)
     from ..report import SubReport, merge_sub
@@ -54,6 +55,11 @@ def run(rep, tier):
     sub20.plumbing_only = True
     c20.run(sub20, tier)
     merge_sub(rep, sub20, "R7", "C20", only_rules=("R1", "R2", "R7"))
+    # R8: opcode names come from the table get_opcode_module hands out for the version and flavour asked for, whatever was asked for before (C09-R5, restated)
+    from . import c09
+    sub09 = SubReport("C09", tier="quick")
+    c09.run(sub09, "quick")
+    merge_sub(rep, sub09, "R8", "C09", only_rules=("R5",))
     rep.assumptions = ["reference/dis_semantics.json (Lib/dis.py of 2.7, 3.6-3.13)", "opcode names per offset are C09's subject", "behaviour on malformed code is not decided"]
 
 
